@@ -315,3 +315,20 @@ Definition spec_name_step (so : nstate * op) : res :=
   | OpAsDictName => ROpt (Val (Some (spec_name_now (fst so))))
   | _ => RUnit
   end.
+
+(* ------------------------------------------------------------ a whole live process (used against the running kernel) *)
+Record klive := {
+  lv_comm : bytes; lv_cmd : kcmd; lv_env : kenv; lv_exe : klink; lv_cwd : klink }.
+Definition view_live (r : klive) : pview :=
+  {| v_stat := Some false; v_stat_denied := false; v_comm := lv_comm r;
+     v_cmdline := FData (k_cmdline (lv_cmd r)); v_environ := FData (k_environ (lv_env r));
+     v_exe := to_link (lv_exe r); v_cwd := to_link (lv_cwd r); v_paths := [] |}.
+Definition wf_live (r : klive) : bool :=
+  (length (lv_comm r) <=? 15)%nat && wf_cmd (lv_cmd r) && wf_env (lv_env r) && wf_link (lv_exe r) && wf_link (lv_cwd r).
+Definition live_ops (v : pview) : list (pview * op) :=
+  [(v, OpCmdline); (v, OpEnviron); (v, OpExe); (v, OpCwd); (v, OpName)].
+Definition live_proc (r : klive) : kproc :=
+  {| p_comm := lv_comm r; p_cmd := lv_cmd r; p_exe := Some (lv_exe r); p_how := WENOENT; p_paths := [] |}.
+Definition spec_live (r : klive) : list res :=
+  [RList (Val (spec_cmdline (lv_cmd r))); RDict (Val (spec_env (e_items (lv_env r))));
+   RBytes (Val (l_path (lv_exe r))); RBytes (Val (l_path (lv_cwd r))); RBytes (Val (spec_name (live_proc r)))].
